@@ -55,7 +55,7 @@ def untxt(l):
 
 def const_cases(tier, r):
     cases = []  # (text, intended value or None)
-    nrand = 150 if tier == "quick" else 5000
+    nrand = 150 if tier == "quick" else 2000
     vals = [0, 1, 2, 9, 10, 15, 16, 255, 256, (1 << 255), (1 << 256) - 1, (1 << 512) - 1]
     vals += [r.randrange(1 << r.choice([1, 8, 64, 160, 256, 264, 512])) for _ in range(nrand)]
     for n in vals:
@@ -90,7 +90,7 @@ NAMES = ["halmos_x_uint256_01", "p_y_address_02", "p_z_bool_03", "halmos_a.b_byt
 
 def model_outputs(tier, r):
     outs = []
-    n = 60 if tier == "quick" else 1500
+    n = 60 if tier == "quick" else 800
     for _ in range(n):
         entries = []
         for name in r.sample(NAMES, r.randint(1, 5)):
@@ -246,7 +246,7 @@ def exact(op, x, y):
 
 def gen_real_cases(tier, r):
     cases = []
-    n = 10 if tier == "quick" else 150
+    n = 10 if tier == "quick" else 80
     ops = ["mul", "div", "mod", "sdiv", "smod"]
     for i in range(n):
         op = ops[i % len(ops)]
